@@ -237,7 +237,7 @@ func (t *tapeRand) Read(p []byte) (int, error) {
 	return len(p), nil
 }
 
-var e3IDs = []string{"id0", "id1", "id2", "id3", "id4", "id5", "org1/alice", "org2/alice", "alice", "did:key:z6Mk", "did:web:z6Mk", "z6Mk"}
+var e3IDs = []string{"id0", "id1", "id2", "id3", "id4", "id5", "org1/alice", "org2/alice", "alice", "did:key:z6Mk", "did:web:z6Mk", "z6Mk", "cafe01", "CAFE01", "Alice"}
 
 func RunE3(r *Run) {
 	saved := cryptorand.Reader
